@@ -14,6 +14,10 @@ def cases(tier):
         fx = fixture('C10', fam, o, tag=tag)
         L.append(fsm_case('C10', fx, 'construct_pair', ['P_C10', 'ENTRY=14', 'CB_BUDGET=0'], timeout=600 * T, witness=True,
                           unwind_extra=[(r'^main\.', 600)]))
+    # (1b) built-in generator: a copy must not share the original's generator
+    o = dict(sublimit=2, rng='builtin', callbacks=['life', 'util', 'select'], act=[], kinds=0)
+    fx = fixture('C10', 'fn4', o, tag='builtin_copy')
+    L.append(fsm_case('C10', fx, 'copy_shares_rng', ['P_C10', 'ENTRY=19', 'CB_BUDGET=0'], timeout=900 * T, witness=True))
     # (2) a copy continues exactly as the original (plans in flight included)
     for fam in (['f5'] if tier == 'quick' else ['f5', 'foroot', 'f10']):
         o = dict(sublimit=2, features=['PLANS', 'TRANSITION_HISTORY'], taskcap=3, callbacks=['guard', 'life', 'update1', 'select', 'plan'], act=['update'], kinds=0x0e)
